@@ -266,6 +266,13 @@ def r4_rejoin_or_defunct(ctx, f, rep):
             ex = c['expr']
             if ex[0] == 'binop' and ex[1] == 'Eq' and ex[3][0] == 'const' and ex[3][2] == 65535:
                 at_max = q.cond_truth(c)
+                subj = ex[2]
+                own_ = ('load', q.self_field('incarnation'), 0)
+                good_subj = subj[0] == 'call' and calls[subj[1]]['res'] == 'core::cmp::Ord::max' and \
+                    set(calls[subj[1]]['args']) == {INC, own_}
+                rep.check(good_subj, 'C10-R4', hb.nname, 'the cannot-refute test is max(suspected, own) == MAX (a suspicion AT '
+                          'MAX cannot be refuted even when the own incarnation is lower)', site=c['span'],
+                          construct='at-max-subject', facts={'subject': q.describe(p, subj, hb)})
         if arm == {'Down'} or (arm == {'Suspect'} and at_max is True):
             n += 1
             ar = [c for c in p.calls() if c['res'] == 'Foca::attempt_rejoin']
